@@ -66,6 +66,17 @@ def oracle(out, rng, n, sweep):
         if bool(pg.is_pdu1_format) != (pf < 240) or bool(pg.is_pdu2_format) != (pf >= 240):
             bad('pgn-class', g, (pg.is_pdu1_format, pg.is_pdu2_format), (pf < 240, pf >= 240))
         out.add_case(('pgn', g), True)
+        if g % 97 == 0 or not sweep:
+            # ... and on an object that is used again: a field assigned afterwards changes that field and nothing else
+            q = PGN(dp, pf, ps)
+            q.pdu_specific = (ps + 1) % 256
+            if (q.data_page, q.pdu_format, q.pdu_specific) != (dp, pf, (ps + 1) % 256) or q.value != ((dp << 16) | (pf << 8) | ((ps + 1) % 256)):
+                bad('pgn-reused-object-ps', g, (q.data_page, q.pdu_format, q.pdu_specific, q.value), (dp, pf, (ps + 1) % 256))
+            q.pdu_format = (pf + 1) % 256
+            q.data_page = 1 - dp
+            if (q.data_page, q.pdu_format, q.pdu_specific) != (1 - dp, (pf + 1) % 256, (ps + 1) % 256) or \
+               q.value != (((1 - dp) << 16) | (((pf + 1) % 256) << 8) | ((ps + 1) % 256)):
+                bad('pgn-reused-object-fields', g, (q.data_page, q.pdu_format, q.pdu_specific, q.value), (1 - dp, (pf + 1) % 256, (ps + 1) % 256))
     vals = [t[0] for t in items.tuples(rng, [64], n)]
     if sweep:
         vals += [rng.getrandbits(64) for _ in range(100000)]
